@@ -105,6 +105,14 @@ def worker(ctx, job):
         ctx.case([text, "clean"], nontrivial=True)
         if clean_only:            # many more programs for the termination rule alone (one run each, no crash points)
             ctx.hit("clean_only_runs")
+            if seed % 3 == 0:
+                # the same skedder run a second time (taskers restarted with remake()): the second run ends by the same
+                # rule, and its abort sweep again sends one abort to each tasker still scheduled
+                r2 = runner.run_text(text, maxticks=cap, post=True, rerun=True)
+                if getattr(r2, "reran", False) and r2.built:
+                    ctx.hit("second_runs_of_one_skedder")
+                    judge(ctx, prog, text, r2, "clean", ["second run"], info, monitors)
+                    ctx.case([text, "clean", "second run"], nontrivial=True)
             continue
         # crash points are (tick, action) pairs: actions run by the final abort sweep itself are not ticks
         nsweep = res.presweep["seq"] if res.presweep else len(res.trace)
@@ -149,3 +157,4 @@ def run(ctx):
     ctx.floor("ended_nothing_running", 1)
     ctx.floor("swept_taskers", 100)
     ctx.floor("clean_only_runs", ctx.pick(400, 7000))
+    ctx.floor("second_runs_of_one_skedder", ctx.pick(80, 1500))
